@@ -39,6 +39,8 @@ class Check(HCheck):
             al.delete(0),
             al.rule(A, "path1"),
             al.rule(Ax, "path2"),
+            al.create(al.SH),  # a one-stem prefix: its node is the very first block of the trie
+            al.create(S),  # a webentity that exists under the other scheme only
         ]
         sp = [Space(Cfg("never"), ops, 5 if thorough else 4, roots=[al.R0, (al.page(Axy), al.page(Awx), al.page(A + b"p:x|p:y|p:z|"))], name="hier/never")]
         ops2 = [
